@@ -8,6 +8,8 @@ names = sys.argv[1:] or sorted(os.listdir(inc))
 head = subprocess.run(["git", "-C", "/repo", "rev-parse", "--short", "HEAD"], capture_output=True, text=True).stdout.strip()
 for name in names:
     d = os.path.join(inc, name)
+    if not os.path.isdir(d):
+        d = os.path.join(root, name)  # re-confirm an already stored seed against the current checks
     prop = name.split("-")[0]
     extra = []
     mp = os.path.join(d, "checks.txt")
@@ -44,10 +46,16 @@ for name in names:
     }
     dst = os.path.join(root, name)
     os.makedirs(dst, exist_ok=True)
-    for f in ("patch.diff", "demo.py"):
-        shutil.copy(os.path.join(d, f), os.path.join(dst, f))
+    if os.path.abspath(d) != os.path.abspath(dst):
+        for f in ("patch.diff", "demo.py"):
+            shutil.copy(os.path.join(d, f), os.path.join(dst, f))
+    else:
+        old_meta = json.load(open(os.path.join(dst, "meta.json")))
+        for k in ("summary", "needs_to_manifest", "files", "origin"):
+            meta[k] = old_meta.get(k, meta[k])
     json.dump(meta, open(os.path.join(dst, "meta.json"), "w"), indent=1)
     if ok_without and ok_with and tests and "358 passed" in tests.group(1):
-        shutil.rmtree(d)
+        if os.path.abspath(d) != os.path.abspath(dst):
+            shutil.rmtree(d)
     else:
         print("!! NOT CONFIRMED:", name)
